@@ -32,14 +32,14 @@ ACCT = {0: "aK", 1: "aX", 2: "aY", 3: "aZ"}
 QKIND = {
     "call_read": "QRead", "grpc_bank": "QRead", "grpc_evm_balance": "QRead", "grpc_funtoken": "QRead", "grpc_oracle": "QRead",
     "call_xfer": "QCallXfer", "call_bank": "QCallBank", "call_bank_other": "QCallBankOther", "call_s2b": "QCallBankOther",
-    "est_xfer": "QEstXfer", "est_bank": "QEstBank", "trace_bank": "QTraceBank",
+    "est_xfer": "QEstXfer", "est_bank": "QEstBank", "trace_bank": "QTraceBank", "trace_call": "QCallXfer", "trace_block": "QCallXfer",
     "sim_evm": "QSimEvm", "sim_evm_bank": "QSimEvmBank", "sim_bank": "QSimBank",
 }
 # entry point : operation, as used in finding signatures
 QNAME = {
     "call_read": "EthCall:FunToken.bankBalance", "call_xfer": "EthCall:transfer", "call_bank": "EthCall:FunToken.bankMsgSend(unibi)",
     "call_bank_other": "EthCall:FunToken.bankMsgSend(other-denom)", "call_s2b": "EthCall:FunToken.sendToBank(erc20)",
-    "est_xfer": "EstimateGas:transfer",
+    "est_xfer": "EstimateGas:transfer", "trace_call": "TraceCall:transfer", "trace_block": "TraceBlock:transfer",
     "est_bank": "EstimateGas:FunToken.bankMsgSend(unibi)", "trace_bank": "TraceTx:FunToken.bankMsgSend(unibi)",
     "sim_evm": "Simulate:MsgEthereumTx(transfer)", "sim_evm_bank": "Simulate:MsgEthereumTx(FunToken.bankMsgSend(unibi))",
     "sim_bank": "Simulate:bank.MsgSend(unibi)", "grpc_bank": "gRPC:bank.Balance", "grpc_evm_balance": "gRPC:evm.Balance",
